@@ -338,6 +338,48 @@ def nontrivial_key(hist):
 
 
 # -- the SynchronousDeferredRunTest clause -------------------------------------------------------
+def _exc_info(exc):
+    try:
+        raise exc
+    except BaseException:
+        import sys
+
+        return sys.exc_info()
+
+
+def _unit_exception(case, where, b):
+    """Constructor of what unit `where` raises / fails its Deferred with, or None."""
+    from testtools.runtest import MultipleExceptions
+    from testtools.testcase import _ExpectedFailure, _UnexpectedSuccess
+    from testtools.twistedsupport._deferred import DeferredNotFired
+    from testtools.twistedsupport._spinner import NoResultError, TimeoutError as SpinTimeout
+    from twisted.internet import defer
+
+    class StillNotFired(DeferredNotFired):
+        pass
+
+    def ours(e):
+        e._c20_unit = True
+        return e
+
+    msg = "boom in " + where
+    return {
+        "fail": lambda: case.failureException(msg),
+        "err": lambda: RuntimeError(msg),
+        "skip": lambda: case.skipException("skip in " + where),
+        # what extract_result() raises when the code under test forgot to fire a Deferred
+        "dnf": lambda: DeferredNotFired(defer.Deferred()),
+        "dnfsub": lambda: StillNotFired(defer.Deferred()),
+        "spin": lambda: SpinTimeout(where, 1),
+        "nores": lambda: NoResultError(),
+        "xfail": lambda: _ExpectedFailure(_exc_info(RuntimeError(msg))),
+        "uxs": lambda: _UnexpectedSuccess(),
+        "multi": lambda: MultipleExceptions(_exc_info(RuntimeError(msg)), _exc_info(case.failureException(msg))),
+        "ki": lambda: ours(KeyboardInterrupt()),
+        "exit": lambda: ours(SystemExit(3)),
+    }.get(b)
+
+
 def run_sync_row(row, via):
     """Runs the same four units under the default RunTest (direct) and under SynchronousDeferredRunTest.
     Returns (direct outcome events, sync outcome events)."""
@@ -351,11 +393,7 @@ def run_sync_row(row, via):
     def make(mode, runner):
         def unit(case, where):
             b = beh[where]
-            exc = {
-                "fail": lambda: case.failureException("boom in " + where),
-                "err": lambda: RuntimeError("boom in " + where),
-                "skip": lambda: case.skipException("skip in " + where),
-            }.get(b)
+            exc = _unit_exception(case, where, b)
             if mode == "deferred":
                 if exc:
                     return defer.fail(exc())
@@ -385,7 +423,9 @@ def run_sync_row(row, via):
         res = ExtendedTestResult()
         try:
             case.run(res)
-        except Exception as ex:  # run() itself raising is part of the observable outcome
+        except BaseException as ex:  # run() itself raising is part of the observable outcome
+            if not isinstance(ex, Exception) and not getattr(ex, "_c20_unit", False):
+                raise  # not one of the units' own KeyboardInterrupt / SystemExit
             return [e[0] for e in res._events] + ["run() raised " + type(ex).__name__]
         return [e[0] for e in res._events]
 
@@ -428,7 +468,7 @@ def run(tier, pid="C20"):
             ("df_exp4Q.cfg", {}),
             ("df_exp5.cfg", {}),
             ("df_expP5.cfg", {}),
-            ("df_sim.cfg", dict(simulate=dict(num=300, depth=8), seed=rep.seed + 1)),
+            ("df_sim.cfg", dict(simulate=dict(num=600, depth=8), seed=rep.seed + 1)),  # per worker (4 in quick)
         ]
     else:
         jobs = [
@@ -441,10 +481,24 @@ def run(tier, pid="C20"):
             ("df_sim.cfg", dict(simulate=dict(num=6000, depth=8), seed=rep.seed + 1)),
             ("df_simP.cfg", dict(simulate=dict(num=3000, depth=9), seed=rep.seed + 2)),
         ]
+    # quick tier: the (small) TLC runs go side by side and are all finished before the first replay starts (so that
+    # gc.freeze() below covers their parsed output); the results are consumed in the fixed job order
+    ready = {}
+    if tier == "quick":
+        from concurrent.futures import ThreadPoolExecutor
+
+        with ThreadPoolExecutor(max_workers=4) as pool:
+            futs = {
+                cfg: pool.submit(tlc.run_tlc, "twisted", "MCDeferredM", cfg, coverage=True, workers=4, timeout=2400, heap="3g",
+                                 **{k: v for k, v in kw.items() if k != "noexport"})
+                for cfg, kw in jobs
+            }  # fmt: skip
+            futs["df_sync.cfg"] = pool.submit(tlc.run_tlc, "twisted", "SyncRun", "df_sync.cfg", coverage=True, workers=2, timeout=600)
+            ready = {cfg: f.result() for cfg, f in futs.items()}
     try:
         for cfg, kw in jobs:
             noexport = kw.pop("noexport", False)
-            r = tlc.run_tlc("twisted", "MCDeferredM", cfg, coverage=True, workers=8, timeout=2400, **kw)
+            r = ready.get(cfg) or tlc.run_tlc("twisted", "MCDeferredM", cfg, coverage=True, workers=8, timeout=2400, **kw)
             tlc.require_ok(r, "C20 " + cfg)
             tlc.require_coverage(r, ACTIONS_P if "P" in cfg else ACTIONS, "C20 " + cfg)
             rep.add_tlc(r, cfg)
@@ -478,7 +532,7 @@ def run(tier, pid="C20"):
         gc.unfreeze()
 
     # last clause: SynchronousDeferredRunTest == direct return / raise
-    r = tlc.run_tlc("twisted", "SyncRun", "df_sync.cfg", coverage=True, workers=2, timeout=600)
+    r = ready.get("df_sync.cfg") or tlc.run_tlc("twisted", "SyncRun", "df_sync.cfg", coverage=True, workers=2, timeout=600)
     tlc.require_ok(r, "C20 df_sync.cfg")
     tlc.require_coverage(r, ["Direct", "Sync"], "C20 df_sync.cfg")
     rep.add_tlc(r, "df_sync.cfg")
@@ -488,7 +542,7 @@ def run(tier, pid="C20"):
     for (row,) in rows:
         direct, sync = run_sync_row(row["row"], row["via"])
         label = " ".join("%s=%s" % (u["w"], u["b"]) for u in row["row"]) + " via=" + row["via"]
-        faults = sorted(u["b"] for u in row["row"] if u["b"] in ("fail", "err", "skip"))
+        faults = sorted(u["b"] for u in row["row"] if u["b"] not in ("ret", "retv"))
         rep.case(
             sample={"units": label, "direct": direct, "sync": sync} if len(faults) == 1 and rep.evaluations % 40 == 0 else None,
             nontrivial_key="sync:" + label if faults else None,
